@@ -111,6 +111,10 @@ pub struct LocalQueue<'l, T: Debug> {
     shared: &'l WorkStealQueue<T>,
     stealing: AtomicBool,
     queue: &'l Worker<T>,
+    /// Serialises the operations that act as the owner of the local ring (push, pop and
+    /// stealing into it): items are pushed from arbitrary threads while the scheduling
+    /// thread pops, and a ring supports only one owner at a time.
+    owner: std::sync::Mutex<()>,
 }
 
 impl<T: Debug> Drop for LocalQueue<'_, T> {
@@ -128,6 +132,7 @@ impl<'l, T: Debug> LocalQueue<'l, T> {
             shared,
             stealing: AtomicBool::new(false),
             queue,
+            owner: std::sync::Mutex::new(()),
         }
     }
 
@@ -209,6 +214,10 @@ impl<'l, T: Debug> LocalQueue<'l, T> {
     /// assert_eq!(local.pop(), None);
     /// ```
     pub fn push(&self, item: T) {
+        let _owner = self
+            .owner
+            .lock()
+            .unwrap_or_else(std::sync::PoisonError::into_inner);
         if let Err(item) = self.queue.push(item) {
             //把本地队列的一半放到全局队列
             let count = self.len() / 2;
@@ -275,6 +284,10 @@ impl<'l, T: Debug> LocalQueue<'l, T> {
     /// assert_eq!(queue.pop(), None);
     /// ```
     pub fn pop(&self) -> Option<T> {
+        let _owner = self
+            .owner
+            .lock()
+            .unwrap_or_else(std::sync::PoisonError::into_inner);
         //每从本地弹出61次，就从全局队列弹出
         if self.tick().is_multiple_of(61) {
             if let Some(val) = self.shared.pop() {
